@@ -402,6 +402,11 @@ func genC05(r *Rand, p *Plan, tier string) {
 			cs.Ops = append(cs.Ops, Op{Kind: "close"})
 		}
 	}
+	if r.Chance(12) {
+		// behind a proxying load balancer: the server runs in proxy mode and every packet
+		// is preceded by an HA-proxy ASCII line
+		p.Scen.Proxy, cs.Proxy = true, true
+	}
 	if sub == 3 || sub == 4 {
 		insertAwaits(r, &cs, 0)
 	} else {
@@ -685,8 +690,19 @@ func genC17(r *Rand, p *Plan, tier string) {
 		p.Mode = "batch"
 	}
 	n := r.Intn(up(7))
+	proxy := r.Chance(15) // the server sits behind a proxying load balancer
+	p.Scen.Proxy = proxy
 	for i := 0; i < n; i++ {
 		cs := probeClient(r, i, r.Intn(up(4)), PickOf(r, "idle", "idle", "mid-header", "mid-body", "close", "reset"))
+		cs.Proxy = proxy
+		if proxy && r.Chance(25) {
+			// a connection that stops inside (or before) the proxy line of its next packet
+			line := cs.ProxyLine()
+			for n := len(cs.Ops); n > 0 && (cs.Ops[n-1].Kind == "idle" || cs.Ops[n-1].Kind == "close" || cs.Ops[n-1].Kind == "reset" || (cs.Ops[n-1].Kind == "send" && cs.Ops[n-1].Pkt.Trunc != nil)); n = len(cs.Ops) {
+				cs.Ops = cs.Ops[:n-1]
+			}
+			cs.Ops = append(cs.Ops, Op{Kind: "raw", Raw: line[:r.Intn(len(line))]}, Op{Kind: "idle"})
+		}
 		cs.NotBefore = r.Intn(25)
 		if r.Chance(15) {
 			cs.WFault = append(cs.WFault, WFaultAt(1+r.Intn(3), "park"))
